@@ -1,13 +1,13 @@
 # Per-property configuration of bin/check.
 PROPS = {
     "C01": {
-        "relation": "Corr.CheckInst.check_safe (implementation signs => model step signs; the signing key's record afterwards equals the model's; no record lowered) - the induction step of C01_no_slashable_attestation",
+        "relation": "Corr.CheckInst.check_safe (implementation signs => model step signs; the signing key's record afterwards equals the model's; no record lowered) - the induction step of C01_no_slashable_attestation; Corr.CheckPaths.path_mismatches (util.ResolvePath = Paths.resolve_path) ties C01_store_found_again_after_restart to the code",
         "trusted": ["badger, the BLS library, Go runtime; wallet libraries' account resolution",
                     "the harness's own SSZ/BLS verification is used only to mark signatures valid"],
         "assumptions": ["histories are finite lists of service-level requests; op_ok: numbers are uint64 values, an injected ruler answer never says APPROVED"],
     },
     "C02": {
-        "relation": "Corr.CheckInst.check_safe - the induction step of C02_no_double_proposal",
+        "relation": "Corr.CheckInst.check_safe - the induction step of C02_no_double_proposal; Corr.CheckPaths.path_mismatches (util.ResolvePath = Paths.resolve_path) ties C02_store_found_again_after_restart to the code",
         "trusted": ["badger, the BLS library, Go runtime; wallet libraries' account resolution"],
         "assumptions": ["as C01"],
     },
